@@ -153,7 +153,7 @@ def gen_doc(rng):
 
 
 def skin_doc(rng):
-    return {'kind': 'xml', 'xml': SKIN_XML, 'ignore': rng.random() < 0.5}
+    return {'kind': 'xml', 'xml': rng.choice([SKIN_XML, BIND_XML, BIND_XML]), 'ignore': rng.random() < 0.5}
 
 
 def gen_query(rng):
@@ -209,7 +209,7 @@ def gen_ops(rng, n):
 
 
 def gen_case(rng, nops):
-    doc = skin_doc(rng) if rng.random() < 0.08 else gen_doc(rng)
+    doc = skin_doc(rng) if rng.random() < 0.14 else gen_doc(rng)
     return {'doc': doc, 'ops': gen_ops(rng, nops)}
 
 
@@ -247,6 +247,36 @@ SKIN_XML = '''<?xml version="1.0" encoding="utf-8"?>
   <node id="n0"><rotate>0 0 1 90</rotate>
    <instance_controller url="#skin0"><skeleton>#joint0</skeleton></instance_controller>
    <instance_geometry url="#mesh0"/></node>
+ </visual_scene></library_visual_scenes>
+ <scene><instance_visual_scene url="#vs"/></scene>
+</COLLADA>
+'''
+
+
+BIND_XML = '''<?xml version="1.0" encoding="utf-8"?>
+<COLLADA xmlns="http://www.collada.org/2005/11/COLLADASchema" version="1.4.1">
+ <asset><created>2020-01-02T03:04:05</created><modified>2020-01-02T03:04:05</modified><up_axis>Y_UP</up_axis></asset>
+ <library_effects><effect id="fx0"><profile_COMMON><technique sid="common"><phong><diffuse><color>1 0.5 0.25 1</color></diffuse></phong></technique></profile_COMMON></effect>
+  <effect id="fx1"><profile_COMMON><technique sid="common"><lambert><diffuse><color>0 0.5 0.25 1</color></diffuse></lambert></technique></profile_COMMON></effect></library_effects>
+ <library_materials><material id="mat0" name="m0"><instance_effect url="#fx0"/></material><material id="mat1" name="m1"><instance_effect url="#fx1"/></material></library_materials>
+ <library_geometries>
+  <geometry id="mesh0" name="mesh0"><mesh>
+   <source id="mesh0-pos"><float_array id="mesh0-pos-array" count="12">0 0 0 2 0 0 0 3 0 0 0 1</float_array>
+    <technique_common><accessor source="#mesh0-pos-array" count="4" stride="3"><param name="X" type="float"/><param name="Y" type="float"/><param name="Z" type="float"/></accessor></technique_common></source>
+   <source id="mesh0-uv"><float_array id="mesh0-uv-array" count="6">0 0 1 0 0 1</float_array>
+    <technique_common><accessor source="#mesh0-uv-array" count="3" stride="2"><param name="S" type="float"/><param name="T" type="float"/></accessor></technique_common></source>
+   <vertices id="mesh0-vtx"><input semantic="POSITION" source="#mesh0-pos"/></vertices>
+   <triangles count="2" material="symA"><input semantic="VERTEX" source="#mesh0-vtx" offset="0"/><input semantic="TEXCOORD" source="#mesh0-uv" offset="1" set="0"/><p>0 0 1 1 2 2 1 0 2 1 3 2</p></triangles>
+   <polylist count="1" material="symB"><input semantic="VERTEX" source="#mesh0-vtx" offset="0"/><vcount>4</vcount><p>0 1 2 3</p></polylist>
+  </mesh></geometry>
+ </library_geometries>
+ <library_visual_scenes><visual_scene id="vs">
+  <node id="n0"><rotate>0 0 1 90</rotate><translate>1 2 3</translate><scale>2 1 1</scale>
+   <instance_geometry url="#mesh0"><bind_material><technique_common>
+     <instance_material symbol="symA" target="#mat0"><bind_vertex_input semantic="TEX0" input_semantic="TEXCOORD"/></instance_material>
+     <instance_material symbol="symB" target="#mat1"><bind_vertex_input semantic="TEX1" input_semantic="TEXCOORD" input_set="1"/><bind_vertex_input semantic="TEX2" input_semantic="TEXCOORD"/></instance_material>
+   </technique_common></bind_material></instance_geometry>
+   <node id="n1"><translate>0 1 0</translate><rotate>1 0 0 90</rotate><instance_geometry url="#mesh0"/></node></node>
  </visual_scene></library_visual_scenes>
  <scene><instance_visual_scene url="#vs"/></scene>
 </COLLADA>
@@ -371,6 +401,7 @@ def fixed_cases():
             ['index_lib', 'geometries', 0, [['get', 'renamed-0'], ['item', 'mesh0'], ['in', 'absent']]]]
     cases = [{'doc': {'kind': 'file', 'file': f, 'ignore': True}, 'ops': ops} for f in FILES]
     cases.append({'doc': {'kind': 'xml', 'xml': SKIN_XML, 'ignore': False}, 'ops': ops})
+    cases.append({'doc': {'kind': 'xml', 'xml': BIND_XML, 'ignore': False}, 'ops': ops})
     return cases
 
 
